@@ -5,6 +5,7 @@ import Driver.Pure
 import Driver.Lifecycle
 import Driver.Sup
 import Driver.SupReload
+import Driver.Comp
 
 /-! One request per line on stdin, one response per line on stdout.  Unknown or malformed
 requests answer `bad-op` (never a default value). -/
@@ -16,6 +17,8 @@ def dispatch (ws : List String) : String :=
   | "supaccept" :: _ | "c01holds" :: _ | "c02holds" :: _ | "c03holds" :: _ | "c04holds" :: _
   | "known" :: "C02-F2" :: _ => (Driver.Sup.handle ws).getD "bad-op"
   | "relaccept" :: _ | "c05holds" :: _ => (Driver.SupReload.handle ws).getD "bad-op"
+  | "c09holds" :: _ | "c10holds" :: _ | "c11holds" :: _ | "compseq" :: _
+  | "known" :: "C09-F1" :: _ => (Driver.Comp.handle ws).getD "bad-op"
   | "equal" :: _ | "c13holds" :: _ | "member" :: _ | "c11memberholds" :: _ | "iscancel" :: _ | "plan" :: _
   | "planany" :: _ | "c16planholds" :: _ | "known" :: _ => (Driver.Pure.handle ws).getD "bad-op"
   | "lcaccept" :: _ | "c07holds" :: _ => (Driver.Lifecycle.handle ws).getD "bad-op"
